@@ -240,6 +240,9 @@ func New(cfg *Config) (n *Node, err error) {
 	if dc.EDNSClientSubnet == nil {
 		dc.EDNSClientSubnet = &dnsforward.EDNSClientSubnet{}
 	}
+	if dc.UpstreamMode == "" {
+		dc.UpstreamMode = dnsforward.UpstreamModeLoadBalance
+	}
 	if len(dc.UpstreamDNS) == 0 {
 		dc.UpstreamDNS = []string{"198.51.100.53:53"}
 	}
